@@ -27,7 +27,12 @@
    Faults (at most one per run): the k-th call of cc1 / as / ld dies before
    doing anything, by exit status or by a signal; an input file is missing
    (root cannot make a file unreadable) or erroneous; the -o path cannot be
-   created.
+   created.  For a C source the point at which the front end rejects it is
+   explicit: "bad" is rejected by the tokenizer / preprocessor / parser, i.e.
+   before any front end, buffered or not, has a reason to open its output;
+   "badgen" passes parse() and is rejected inside codegen() (gen_addr: "not an
+   lvalue") -- after a front end that streams its listing has already created
+   or truncated the output.  Under -E a badgen file is an ordinary source.
 
    Deviations of the code from the intended discipline are switchable so that
    TLC shows what each breaks (sensitivity controls):
@@ -37,7 +42,8 @@
                         to the -o / default .o path and never given to ld
      DoCleanup = FALSE  atexit(cleanup) dropped
      CheckWait = FALSE  wait status ignored
-     Buffered = FALSE   cc1 opens (truncates) its output before compiling
+     Buffered = FALSE   cc1 opens (truncates) its output after parse() and streams
+                        codegen() into it: only a badgen input shows the difference
      ExclTmp = FALSE    predictable temporary names, no O_EXCL
    Named difference to gcc that is *not* treated as a defect: -E sets
    opt_x = FILE_C, so under -E every input, whatever its suffix, is preprocessed.
@@ -69,7 +75,7 @@ NoStep == [tool |-> "none", out |-> "-", fin |-> "-"]
 
 VARIABLES ins,       \* kinds of the input files in the directory, shared by the drivers
           pre,       \* "old" | "absent": what every possible output path holds initially
-          dirfault,  \* [t: none|missing|bad, i]   a property of the directory
+          dirfault,  \* [t: none|missing|bad|badgen, i]   a property of the directory
           cmd,       \* d -> [mode, o]
           fault,     \* d -> [t: none|cc1|as|ld|unwritable, k, how: exit|signal]
           prog,      \* d -> the step list of the command (ProgOf)
@@ -136,7 +142,7 @@ NCalls(pr, tool) == Len(SelectSeq(pr, LAMBDA o : o.op = tool))
 InitTag(insV, preV, dfV, fltV, p) ==
   IF \E i \in 1..Len(insV) : p = In(i, insV[i])
   THEN LET i == CHOOSE j \in 1..Len(insV) : p = In(j, insV[j])
-       IN IF dfV.i = i THEN (IF dfV.t = "missing" THEN "absent" ELSE "bad") ELSE "src"
+       IN IF dfV.i = i THEN (IF dfV.t = "missing" THEN "absent" ELSE dfV.t) ELSE "src"
   ELSE IF p \in TmpPaths THEN "absent"
   ELSE IF \E d \in D : p = OPath(d) /\ fltV[d].t = "unwritable" THEN "absent"     \* its directory does not exist
   ELSE preV
@@ -184,6 +190,7 @@ Init ==
   /\ cmd \in [D -> [mode : Modes, o : BOOLEAN]]
   /\ ND = 2 => Rank(cmd[1]) <= Rank(cmd[2])       \* the drivers are interchangeable (out1 / out2 renamed)
   /\ dirfault \in {NoDF} \cup {[t |-> x, i |-> i] : x \in {"missing", "bad"}, i \in 1..Len(ins)}
+                      \cup {[t |-> "badgen", i |-> i] : i \in {j \in 1..Len(ins) : ins[j] = "c"}}
   /\ \E f1 \in (IF dirfault = NoDF THEN FaultsOf(ins, cmd[1], 1) ELSE {NoF}) :          \* a single fault
        IF ND = 1 THEN fault = <<f1>>
        ELSE \E f2 \in (IF dirfault = NoDF /\ f1 = NoF THEN FaultsOf(ins, cmd[2], 2) ELSE {NoF}) : fault = <<f1, f2>>
@@ -239,7 +246,8 @@ Spawn(d) ==                   \* fork + execvp
 Outcome(d) ==
   LET c == child[d]
       hit == fault[d].t = c.tool /\ fault[d].k = ncall[d][c.tool]
-      inOK == \A j \in DOMAIN c.ins : fs[c.ins[j]] \notin {"absent", "bad"}
+      inOK == \A j \in DOMAIN c.ins : fs[c.ins[j]] \notin {"absent", "bad"}           \* readable, accepted by parse()
+      genOK == cmd[d].mode = "E" \/ \A j \in DOMAIN c.ins : fs[c.ins[j]] # "badgen"    \* accepted by codegen()
       tracked == c.out # "-"
       canW == ~(fault[d].t = "unwritable" /\ c.out = OPath(d))
       new == Fresh(c.tool, cmd[d].mode, d)
@@ -247,10 +255,10 @@ Outcome(d) ==
   IN IF hit THEN <<fault[d].how, fs, FALSE, FALSE>>
      ELSE IF c.tool = "cc1"
      THEN IF Buffered
-          THEN IF inOK /\ canW THEN <<"ok", put(new), tracked, FALSE>> ELSE <<"exit", fs, FALSE, FALSE>>
-          ELSE IF ~canW THEN <<"exit", fs, FALSE, FALSE>>
-               ELSE IF inOK THEN <<"ok", put(new), tracked, FALSE>>
-               ELSE <<"exit", put("Z" \o ToString(d)), FALSE, tracked>>      \* output truncated, then the error
+          THEN IF inOK /\ genOK /\ canW THEN <<"ok", put(new), tracked, FALSE>> ELSE <<"exit", fs, FALSE, FALSE>>
+          ELSE IF ~inOK \/ ~canW THEN <<"exit", fs, FALSE, FALSE>>          \* rejected before / at the open
+               ELSE IF genOK THEN <<"ok", put(new), tracked, FALSE>>
+               ELSE <<"exit", put("Z" \o ToString(d)), FALSE, tracked>>      \* output truncated, partial listing, then the error
      ELSE IF ~canW THEN <<"exit", fs, FALSE, FALSE>>                          \* as / ld: cannot create the output
      ELSE IF inOK THEN <<"ok", put(new), tracked, FALSE>>
      ELSE <<"exit", put("absent"), FALSE, tracked>>                          \* created, error, unlinked again
@@ -317,12 +325,13 @@ AllDone == \A d \in D : pc[d] = "done"
 P1 == \A d \in D : pc[d] = "done" => \A n \in TmpPaths : owner[n] = d => fs[n] = "absent"
 (* P2  exit code # 0 iff some step failed *)
 P2 == \A d \in D : pc[d] = "done" => ((code[d] # 0) <=> sf[d])
-(* P3  a translation unit that failed to compile: neither its own output nor the user-visible
+(* P3  a translation unit that failed to compile: neither its own output (unless that is one of
+       the driver's temporaries, which nobody else sees and cleanup removes) nor the user-visible
        output it contributes to was created, overwritten or removed by this driver; a failed
        assembler / linker step left no new content in its output *)
 P3 == \A d \in D :
         LET s == failstep[d]  touched == wrote \cup clob IN
-        /\ s.tool = "cc1" => <<d, s.out>> \notin touched /\ <<d, s.fin>> \notin touched
+        /\ s.tool = "cc1" => (s.out \notin TmpPaths => <<d, s.out>> \notin touched) /\ <<d, s.fin>> \notin touched
         /\ s.tool = "as" => <<d, s.out>> \notin wrote /\ (s.fin # s.out => <<d, s.fin>> \notin touched)
         /\ s.tool = "ld" => <<d, s.out>> \notin wrote
 (* P4  on success exactly the requested outputs exist, freshly written; nothing else in the
